@@ -1,0 +1,35 @@
+//go:build verif
+
+package verifhook
+
+import (
+	"github.com/sourcenetwork/defradb/event"
+	"github.com/sourcenetwork/defradb/internal/encryption"
+)
+
+// AnswerKeyRequests stands in for the key management service: every request for encryption keys
+// published on the bus is answered with what provide returns for the requested link (the bytes of
+// the encryption block, or false when this node has no access to the key).
+// It returns a function that stops answering.
+func AnswerKeyRequests(bus event.Bus, provide func(link []byte) ([]byte, bool)) (func(), error) {
+	sub, err := bus.Subscribe(encryption.RequestKeysEventName)
+	if err != nil {
+		return nil, err
+	}
+	go func() {
+		for msg := range sub.Message() {
+			req, ok := msg.Data.(encryption.RequestKeysEvent)
+			if !ok {
+				continue
+			}
+			res := encryption.Result{}
+			for _, k := range req.Keys {
+				if b, ok := provide(k.Cid.Bytes()); ok {
+					res.Items = append(res.Items, encryption.Item{Link: k.Cid.Bytes(), Block: b})
+				}
+			}
+			req.Resp <- res
+		}
+	}()
+	return func() { bus.Unsubscribe(sub) }, nil
+}
